@@ -53,15 +53,20 @@ namespace {
     }                                                                                                                            \
   while (0)
 
-// Known findings (work/notes/C02_findings.md) are excluded by construction unless VERIF_NO_EXCLUDE=1
+// Known findings (work/notes/C02_findings.md) are excluded by construction.  VERIF_NO_EXCLUDE=1 switches every
+// exclusion off (that is how a fix is confirmed); VERIF_NO_EXCLUDE=L2,N1 switches off only the listed ones.
 bool
-no_exclude()
+no_exclude(const char* id)
 {
-  static const bool v = [] {
+  static const std::string v = [] {
     const char* e = std::getenv("VERIF_NO_EXCLUDE");
-    return e && *e && std::string(e) != "0";
+    return std::string(e ? e : "");
   }();
-  return v;
+  if (v.empty() || v == "0")
+    return false;
+  if (v == "1")
+    return true;
+  return ("," + v + ",").find(std::string(",") + id + ",") != std::string::npos;
 }
 
 enum Backing
@@ -851,7 +856,7 @@ Run::run_op(const json& op, std::size_t opno)
     // ------------------------------------------------------------------ writes
     case W_BIN: {
       // N1 (notes): ProjDataFromStream::set_bin_value ignores the object's scale factor
-      if (stream_backed && L.scale != 1.F && !no_exclude())
+      if (stream_backed && L.scale != 1.F && !no_exclude("N1"))
         {
           vf::stats().excluded_known++;
           vf::stats().count("excluded N1: set_bin_value with scale factor != 1");
@@ -861,7 +866,7 @@ Run::run_op(const json& op, std::size_t opno)
       set_bin(Bin(s, v, a, t, k, x));
       ref[g.idx(s, a, v, t, k)] = x;
       // L3 (notes): no flush in ProjDataFromStream::set_bin_value; when excluded, file-level checks wait for the next flush
-      if (file_backed() && !no_exclude())
+      if (file_backed() && !no_exclude("L3"))
         {
           unflushed = true;
           vf::stats().excluded_known++;
@@ -1132,7 +1137,7 @@ Run::run_op(const json& op, std::size_t opno)
         basic.timing_pos_num() = k;
         // N2 (notes; lead L5): the defaulted 4th argument timing_pos=0 overrides the TOF index of the ViewgramIndices
         const bool defaulted = V % 2 == 1;
-        if (defaulted && k != 0 && !no_exclude())
+        if (defaulted && k != 0 && !no_exclude("N2"))
           {
             vf::stats().excluded_known++;
             vf::stats().count("excluded N2: get_related_viewgrams(indices with TOF index != 0) with defaulted timing_pos");
@@ -1283,18 +1288,18 @@ Run::op_oob(const json& op, const std::string& tag)
   const std::string what = vf::cat(tag, " ", pnames[path], " with ", kind_names[kind], " one step ", above ? "above" : "below", " the range: ",
                                    "(seg=", s, ",ax=", a, ",view=", v, ",tang=", t, ",tof=", k, ") on ", backing_names[backing]);
   // L2 (notes): view and tangential position are not range-checked in get_index()/get_offset()
-  if ((kind == K_VIEW || kind == K_TANG) && !no_exclude())
+  if ((kind == K_VIEW || kind == K_TANG) && !no_exclude("L2"))
     {
       vf::stats().excluded_known++;
       vf::stats().count("excluded L2: out-of-range view/tangential position");
       return Result::pass();
     }
   // N3 (notes): the segment number is used to index the per-segment arrays of ProjDataInfo before any range test
-  // when a viewgram/sinogram/segment object is built for it (paths other than the bin paths)
-  if (kind == K_SEG && path >= 2 && path <= 6 && !no_exclude())
+  // when a viewgram/sinogram/segment object is built for it, and in set_segment (all paths other than the bin paths)
+  if (kind == K_SEG && path >= 2 && !no_exclude("N3"))
     {
       vf::stats().excluded_known++;
-      vf::stats().count("excluded N3: out-of-range segment through viewgram/sinogram/segment getters");
+      vf::stats().count("excluded N3: out-of-range segment through viewgram/sinogram/segment getters and set_segment");
       return Result::pass();
     }
   vf::stats().count(vf::cat("out-of-range requests: ", pnames[path], " / ", kind_names[kind]));
@@ -1548,8 +1553,11 @@ single_mashed_tof_bin(const json& c)
 std::string
 known_signature(const json& c)
 {
-  if (!no_exclude() && single_mashed_tof_bin(c))
+  if (!no_exclude("N4") && single_mashed_tof_bin(c))
     return "C02:N4:TOF data with a single (fully mashed) TOF bin lose their TOF mashing factor in the header";
+  if (!no_exclude("N5") && c["scanner"].contains("block_gap_ax")
+      && (c["scanner"]["block_gap_ax"].get<double>() < 0.01 || c["scanner"]["block_gap_tr"].get<double>() < 0.01))
+    return "C02:N5:blocks scanner without gap between blocks is refused when its own header is read back";
   return "";
 }
 
@@ -1608,7 +1616,7 @@ gen(Src& s, int size)
       // N5 (notes): a blocks scanner whose crystals fill the block exactly (gap 0) is refused when its own header is
       // read back (Scanner::check_consistency compares crystal_spacing*n > block_spacing exactly, after both numbers went
       // through 6-digit text); excluded by construction: gaps of at least 0.01 mm
-      if (!no_exclude())
+      if (!no_exclude("N5"))
         for (const char* key : { "block_gap_ax", "block_gap_tr" })
           if (c["scanner"][key].get<double>() < 0.01)
             c["scanner"][key] = 0.01;
@@ -1633,7 +1641,7 @@ gen(Src& s, int size)
     }
   // N4 (notes): TOF data mashed into a single TOF bin are written with a non-TOF header and come back with
   // TOF mashing factor 0; excluded by construction (non-TOF data on the TOF scanner instead)
-  if (single_mashed_tof_bin(c) && !no_exclude())
+  if (single_mashed_tof_bin(c) && !no_exclude("N4"))
     c["pdi"]["tof_mash"] = 0;
   // not more than ~3000 bins (DESIGN C02 bounds): fewer tangential positions first, then fewer segments
   for (int guard = 0; guard < 40; ++guard)
@@ -1702,7 +1710,7 @@ gen(Src& s, int size)
   io.max_xy = 7;
   c["image"] = vg::gen_image(s, io);
   c["seed"] = s.seed64();
-  const bool n1_excluded = !no_exclude() && backing != B_MEM && c["scale"].get<double>() != 1.;
+  const bool n1_excluded = !no_exclude("N1") && backing != B_MEM && c["scale"].get<double>() != 1.;
   const long nops = s.range(5, 5 + long(size) * 35 / 100);
   // weights: writes dominate; every write is followed by a full read-back through the path in op[7]
   static const std::vector<int> codes = { W_BIN,      W_BIN,      W_BIN,     W_VIEWGRAM, W_VIEWGRAM, W_SINOGRAM,  W_SINOGRAM, W_SEG_VIEW, W_SEG_SINO,
@@ -1716,7 +1724,7 @@ gen(Src& s, int size)
       if (code == W_BIN && n1_excluded)
         code = W_VIEWGRAM;
       long v = s.range(0, 999);
-      if (code == E_OOB && !no_exclude())
+      if (code == E_OOB)
         { // steer away from the excluded classes (L2: view/tangential; N3: segment through the object getters) so that
           // the remaining out-of-range requests keep their share; the interpreter skips excluded ones anyway
           for (int tries = 0; tries < 8; ++tries)
@@ -1725,7 +1733,7 @@ gen(Src& s, int size)
               static const std::vector<std::vector<int>> kl = { { 0, 1, 2, 3, 4 }, { 0, 1, 2, 3, 4 }, { 0, 2, 4 }, { 0, 1, 4 }, { 0, 4 },
                                                                 { 0, 4 },          { 0, 2, 4 },       { 2, 4 },    { 1, 4 },    { 4, 0 } };
               const int kind = kl[std::size_t(path)][std::size_t((v / 10) % long(kl[std::size_t(path)].size()))];
-              const bool excl = kind == 2 || kind == 3 || (kind == 0 && path >= 2 && path <= 6);
+              const bool excl = ((kind == 2 || kind == 3) && !no_exclude("L2")) || (kind == 0 && path >= 2 && !no_exclude("N3"));
               if (!excl)
                 break;
               v = s.range(0, 999);
@@ -1796,12 +1804,6 @@ nontrivial(const json& c)
     layout = layout || c["perm"].get<long>() != 0 || c["order"].get<int>() == 1 || c["type"].get<int>() != 0
              || (c["offset"].get<long>() > 0 && c["backing"].get<int>() <= B_FSTREAM);
   return wfam.size() >= 2 && cross_read && layout;
-}
-
-std::vector<json>
-fixed_cases(int)
-{
-  return {};
 }
 
 } // namespace
